@@ -8,7 +8,7 @@
      uv_accept             stream.c:536-598   -> uv_accept, q_pop (the memmove shift)
      uv__stream_close      stream.c:1571-1620 -> stream_close (descriptor part)
      uv_pipe_pending_count/type  pipe.c       -> pending_count, pending_type
-     uv__accept            core.c:559-589     -> uv__accept (EINTR retry)
+     uv__accept (core.c:559-589) -> accept_retry (EINTR retry)
 
    Descriptors are integers >= 0 (the check renames them to the identity of the
    connection / of the sent descriptor).  Everything that leaves libuv is an
@@ -172,11 +172,11 @@ Definition acc_code (a : acc) : Z :=
   | AEnfile => UV_ENFILE | AErr e => e
   end.
 
-(* uv__accept: retry while EINTR; an exhausted oracle answers EAGAIN *)
-Fixpoint uv__accept (o : list acc) : acc * list acc :=
+(* accept_retry: retry while EINTR; an exhausted oracle answers EAGAIN *)
+Fixpoint accept_retry (o : list acc) : acc * list acc :=
   match o with
   | [] => (AAgain, [])
-  | AIntr :: r => uv__accept r
+  | AIntr :: r => accept_retry r
   | a :: r => (a, r)
   end.
 
@@ -199,7 +199,7 @@ Record st := mkSt {
 }.
 
 Definition server_io (kind : Z -> Z) (x : st) (beh : nat -> list op) : st * list ev :=
-  let (a, r) := uv__accept (acc_o x) in
+  let (a, r) := accept_retry (acc_o x) in
   match a with
   | AFd f =>
       let s1 := set_acc (sv x) f in
